@@ -389,6 +389,9 @@ let run_case (fields : string list) : string =
      | Some (Some n, KeyPanic) -> "PANIC"
      | Some (_, NoKey) | Some (None, _) -> "N=- NOKEY"
      | None -> "MODEL-UNKNOWN-VARIANT")
+  | "cfgvmess" :: nt :: variant :: _ ->
+    (match q_vmess (bytes_of_text nt) (bytes_of_text variant) with
+     | Some (VSecurity _) -> "OK" | Some VRefused -> "ERR" | Some VUnchecked -> "UNCHECKED" | None -> "MODEL-UNKNOWN-VARIANT")
   | "sstcp" :: kind :: key :: ikeys :: users :: mode :: salt :: addr :: now :: ops :: _ -> run_sstcp kind key ikeys users mode salt addr now ops
   | "s5enc" :: a :: _ -> let a = parse_addr a in Printf.sprintf "OK %s %d" (hx (s5_encode a)) (int_of_n (s5_length a))
   | "s5dec" :: b :: _ -> show_res (fun (a, rest) -> addr_str a ^ " " ^ hx rest) (s5_decode (unhex b))
